@@ -465,6 +465,12 @@ class Explorer:
                     if len(args) >= 1 and args[0][0] == 'agg' and isinstance(args[0][1], tuple) and args[0][1][0] == 'adt' \
                             and args[0][1][2] in ('Ok', 'Some') and args[0][2] and (name.endswith('::unwrap') or name.endswith('::expect')):
                         res = args[0][2][0]
+                    # |const|
+                    if len(args) == 1 and args[0][0] == 'const' and isinstance(args[0][1], int) and not isinstance(args[0][1], bool) \
+                            and name.split('::')[-1] in ('unsigned_abs', 'abs', 'wrapping_abs'):
+                        dty = self.body.local_ty(t['dest']['local']) if not t['dest'].get('proj') else None
+                        if dty is not None and dty.get('k') == 'int':
+                            res = ('const', abs(args[0][1]), dty['s'])
                     # length of a fixed-size array viewed as a slice is its type-level length
                     if len(args) == 1 and name.endswith('::len') and 'slice' in name:
                         n = self.array_len(args[0])
